@@ -49,7 +49,7 @@ def label_map(draw, n, scheme=None, cap=300000):
 def hyd_net(draw, max_n=10, fluids=None, allow_oos=True, allow_pi=True, allow_ctrl=True, allow_heights=True,
             labels=True, max_sections=4, sectors=True, liquids_only=False, gases_only=False, zero_load_p=0.04,
             t_uniform=False, allow_pumps=True, min_n=2, allow_parallel=True, extra_edges=4, all_flowing=False,
-            allow_lift=True):
+            allow_lift=True, lift_bias=2, max_eg=3):
     fluids = fluids or ALL_FLUIDS
     if all_flowing:
         allow_oos = False
@@ -107,9 +107,9 @@ def hyd_net(draw, max_n=10, fluids=None, allow_oos=True, allow_pi=True, allow_ct
             if allow_ctrl:
                 choices += ["press_control"]
                 if gas and allow_lift:
-                    choices += ["compressor", "compressor"]
+                    choices += ["compressor"] * lift_bias
                 if allow_pumps and allow_lift and not gas:
-                    choices += ["pump", "pump"]
+                    choices += ["pump"] * lift_bias
         else:
             choices = ["pipe"] * 6 + ["valve"] * 2
             if allow_ctrl:
@@ -182,7 +182,7 @@ def hyd_net(draw, max_n=10, fluids=None, allow_oos=True, allow_pi=True, allow_ct
         if e["table"] == "flow_control":
             e["controlled_mdot_kg_per_s"] = mscale * draw(fl(0.02, 0.3))
     # ---- feeders
-    n_eg = draw(st.sampled_from([1, 1, 1, 2, 2, 3]))
+    n_eg = draw(st.sampled_from([k_ for k_ in [1, 1, 1, 2, 2, 3] if k_ <= max_eg]))
     pc_controlled = {e["controlled_junction"] for e in elements if e["table"] == "press_control"}
     free_j = [i for i in range(n) if i not in pc_controlled]
     for k in range(n_eg):
